@@ -116,7 +116,7 @@ def expected(env, defaults, user, sfile, cli_flat, rel_to_cfg_source=None):
         base = env.proj
         if rel and who == 's': base = env.cfgdir
         elif rel and who == 'u': base = os.path.dirname(env.userfile)
-        d = os.path.join(base, d)
+        d = os.path.abspath(os.path.join(base, d))
     out = {k: v for k, (v, _) in exp.items()}
     out['output.directory'] = d
     out['input.exclude_filters'] = [x for _, src in sources for x in src.get('input.exclude_filters', [])]
@@ -210,6 +210,13 @@ def config_suite(seed, tier, out, drv):
                 compare(env, defaults, user, sfile, cli_args, cli_flat, out, drv, ('exh', k, useU, useS, useC, rel))
                 out.note_case(('exh', k, useU, useS, useC, rel), useU + useS + useC >= 1)
                 out.dist['sources-set:%d' % (useU + useS + useC)] += 1; n += 1
+        # falsy values on the command line still win (an empty prefix / output "" = current directory)
+        for args, flat in ((['-p', ''], {'rst.prefix': ''}), (['-o', ''], {'output.directory': ''})):
+            for useS in (0, 1):
+                k = list(flat)[0]; ty, uv, sv, cli = OPTS[k]
+                sfile = {k: sv} if useS else {}
+                compare(env, defaults, {k: uv}, sfile, args, flat, out, drv, ('falsy-cli', k, useS))
+                out.note_case(('falsy-cli', k, useS), True); n += 1
         out.exhaustive = True
         out.sample(dict(suite='config', option='rst.prefix', user={'rst.prefix': 'U'}, sfile={'rst.prefix': 'S'}, cli=['-p', 'C'], expect='C'))
         # --- wrong-typed values: rejected, never replaced by a lower-priority or default value --------------------------
